@@ -375,9 +375,9 @@ func compareAnchor(w *mc.World, m *model.State, wrk bool) []Disc {
 			}
 			switch {
 			case err != nil && in:
-				add(disc("anch.retention", "%s %d record %d should be in state but the query fails: %v", mod, id, h, err))
+				add(disc("anch.missing", "%s %d record %d was accepted and is within the retention limit, but the query fails: %v", mod, id, h, err))
 			case err == nil && !in:
-				add(disc("anch.retention", "%s %d record %d should have been pruned but is still served", mod, id, h))
+				add(disc("anch.unpruned", "%s %d record %d should have been pruned but is still served", mod, id, h))
 			case err == nil && in:
 				wantT := rec.T
 				if wrk {
